@@ -429,6 +429,10 @@ def _schema_w():
         qfields["lst_d%d" % i] = _f("String", {"x": _a("[WD%d]" % i)}, echo=True)
         qfields["lstx_a%d" % i] = _f("String", {"x": _a("[W%d]" % i, "[%s]" % lit)}, echo=True)
         qfields["lstx_d%d" % i] = _f("String", {"x": _a("[WD%d]" % i, "[%s]" % lit)}, echo=True)
+    # two same-typed non-null positions of which exactly one has a default (arguments / input fields)
+    qfields["pair"] = _f("String", {"a": _a("Int!", "1"), "b": _a("Int!")}, echo=True)
+    types["PairIn"] = {"kind": "input", "fields": {"a": {"type": "Int!", "default": "1"}, "b": {"type": "Int!", "default": None}}}
+    qfields["pairobj"] = _f("String", {"x": _a("PairIn")}, echo=True)
     qfields["plain"] = _f("String")
     types_all = {"Query": {"kind": "object", "interfaces": [], "fields": qfields}}
     types_all.update(types)
